@@ -894,6 +894,66 @@ def transfer_mirror(rtext, mirror, log, where, variant="main", is_fn=True):
             ann = new_ann
             if not done:
                 ed.insert(R[fa_r.body_open].start, "\nensures false,\n")
+    # R10 (mirror mode): Rust-reference desugaring of a `for` loop whose own body uses `continue`
+    # (Verus: for-loops do not support continue).  The loop must be named (`for x in it: E`); the generated
+    # shape is  { let mut it = IntoIterator::into_iter(E); let ghost it_all = it.remaining(); let ghost mut it_k = 0;
+    #            loop <hdr + generated iterator invariants> { match it.next() { None => { break; } Some(x) => { it_k += 1; BODY } } } }
+    r10 = {}
+    if is_fn:
+        try:
+            fa10 = FnAnatomy(rtext)
+            lps = fa10.loops()
+        except Lost:
+            lps = []
+        for L in lps:
+            if L["kind"] != "for" or L["in_idx"] is None:
+                continue
+            inner = [(M2["body_open"], M2["body_close"]) for M2 in lps if M2 is not L and L["body_open"] < M2["kw"] < L["body_close"]]
+            own = any(R[k].text == "continue" and R[k].kind == "id" and not any(a <= k <= b for a, b in inner)
+                      for k in range(L["body_open"], L["body_close"]))
+            if own:
+                r10[L["in_idx"]] = dict(L, name=None)
+    if r10:
+        inv_ab = {v: k for k, v in a2b.items()}
+        new_ann = []
+        for pos, text, glue in ann:
+            anchor = a2b.get(pos - 1) if pos - 1 >= 0 else None
+            if glue == "tight" and anchor in r10:
+                if text != ":":
+                    r10[anchor]["name"] = text
+                continue
+            new_ann.append((pos, text, glue))
+        ann = new_ann
+        for in_idx, L in sorted(r10.items()):
+            nm = L["name"]
+            if not nm:
+                raise Lost("%s: for-loop with `continue` needs a named iterator (`for x in it: E`) for R10" % where)
+            pat = rtext[R[L["kw"] + 1].start:R[in_idx - 1].end]
+            auto_inv = "%s.obeys_prophetic_iter_laws(), 0 <= %s_k <= %s_all.len(), %s.remaining() == %s_all.skip(%s_k)," % (nm, nm, nm, nm, nm, nm)
+            auto_dec = "decreases %s_all.len() - %s_k" % (nm, nm)
+            # header annotation = block annotation anchored at the body's `{`
+            hdr_pos = inv_ab.get(L["body_open"])
+            found = False
+            new_ann = []
+            for pos, text, glue in ann:
+                if not found and glue == "block" and pos == hdr_pos and re.search(r"\binvariant\b", text):
+                    text = re.sub(r"\binvariant\b", "invariant " + auto_inv, text, count=1)
+                    auto_ens = "\nensures %s_k == %s_all.len(),\n" % (nm, nm)
+                    md = list(re.finditer(r"\bdecreases\b", text))
+                    if md:
+                        text = text[:md[-1].start()].rstrip().rstrip(",") + "," + auto_ens + text[md[-1].start():]
+                    else:
+                        text = text.rstrip().rstrip(",") + "," + auto_ens
+                    found = True
+                new_ann.append((pos, text, glue))
+            ann = new_ann
+            before = rtext[R[L["kw"]].start:R[L["body_open"]].start]
+            ed.replace(R[L["kw"]].start, R[in_idx].end, "let mut %s = core::iter::IntoIterator::into_iter(" % nm)
+            ed.insert(R[L["body_open"] - 1].end, "); let ghost %s_all = %s.remaining(); let ghost mut %s_k: int = 0; loop " % (nm, nm, nm)
+                      + ("" if found else "invariant " + auto_inv + "\nensures %s_k == %s_all.len(),\n" % (nm, nm)))
+            ed.insert(R[L["body_open"]].end, " match %s.next() { None => { break; } Some(%s) => { proof { %s_k = %s_k + 1; } " % (nm, pat, nm, nm))
+            ed.insert(R[L["body_close"]].start, " } } ")
+            log.append({"rule": "R10-for-desugar", "before": before.strip(), "after": "let mut %s = IntoIterator::into_iter(..); loop { match %s.next() { None => break, Some(%s) => {..} } }" % (nm, nm, pat), "where": where})
     for pos, text, glue in ann:
         off = None
         if pos - 1 >= 0 and (pos - 1) in a2b:
